@@ -270,6 +270,12 @@ def check_one(chk, c, o, r_fit, r_fwd, r_inv):
         extra = np.zeros_like(ytol)
         extra[:, bnd] = 256 * eps / np.maximum(np.minimum(ub, 1 - ub), EPS / 2)
         ytol = ytol + extra
+    if per.any():
+        # conditioning of the wrap: the result inherits the ABSOLUTE rounding error of x - lower (an input many periods away from
+        # the interval is known only to within ulp(x), whatever the size of the wrapped value)
+        extra = np.zeros_like(ytol)
+        extra[:, per] = 8 * eps * (np.abs(x[:, per]) + np.abs(lo[per]) + wdt[per])
+        ytol = ytol + extra
     my = np.asarray(r_fwd.fs()).reshape(-1, d); mlj = np.asarray(r_fwd.fs())
     ljtol = (1e-9 if not f32 else 2e-3) * (1 + np.abs(lj)) * d
     if bnd.any():
